@@ -31,6 +31,9 @@ func standaloneProduct(maxN int, visit func(idx int, sc *scen.Scenario, sig stri
 							if idx%3 == 1 {
 								v.Payload = 1 + (idx*7)%160
 							}
+							if fb == 1 && idx%4 == 0 {
+								v.FBNil = true // the rescuing fallback returns (nil, nil)
+							}
 							if idx%5 == 2 {
 								ns.Conc = 1 + idx%3 // a batch concurrency configured on a plain node must change nothing
 							}
